@@ -76,6 +76,11 @@ func init() {
 		Cases:         func(t string) int { return tierN(t, 256, 3000) },
 		MinNontrivial: func(t string) int { return tierN(t, 40, 600) },
 		Run: func(c *fw.Case) {
+			if c.Index%16 == 15 {
+				c05GenesisProbe(c)
+				c.KeepViolations("C08/")
+				return
+			}
 			e := runVestScenario(c, "C08")
 			if e == nil {
 				return
@@ -201,8 +206,46 @@ func c05GenesisProbe(c *fw.Case) {
 			}
 		}
 		backed("after InitChain")
-		// at the lock end the owner - writing its address the way the genesis does - is paid
-		// exactly the matured remainder, and the pool query agrees
+		// before the lock end the owner - writing its address the way the genesis does - sends
+		// part of the pool to a new vesting account: the pool's sent counter grows by exactly
+		// that, and no more than what is left can be sent afterwards
+		sentA := int64(0)
+		if _, err := n.BeginBlock(lockEnd.Add(-30 * time.Minute)); err == nil {
+			s := int64(1 + r.Intn(int(amtA/2)))
+			to := chain.NewKey(fmt.Sprintf("c05-genesis-recipient-%d-%v", c.Index, twice))
+			res, derr := n.Deliver(owner, &vesttypes.MsgSendToVestingAccount{Owner: upper, ToAddress: to.Bech(), VestingPoolName: "up", Amount: sdk.NewInt(s), RestartVesting: r.Intn(2) == 0})
+			if derr == nil {
+				if res.Code != 0 {
+					c.ViolateD("C08/valid-send-rejected", map[string]string{"log": short(res.Log, 300)}, "a send of %d from the %d locked in the pool of a genesis owner spelled in upper case was rejected", s, amtA)
+				} else {
+					sentA = s
+					avp, _ := n.App.CfevestingKeeper.GetAccountVestingPools(n.Ctx(), upper)
+					got := sdk.ZeroInt()
+					for _, p := range avp.VestingPools {
+						if p.Name == "up" {
+							got = p.Sent
+						}
+					}
+					if !got.Equal(sdk.NewInt(s)) {
+						c.Violate("C08/sent-counter", "send of %d from the pool of a genesis owner spelled in upper case: the pool's sent counter is %s afterwards", s, got)
+					}
+					res2, derr2 := n.Deliver(owner, &vesttypes.MsgSendToVestingAccount{Owner: upper, ToAddress: chain.NewKey(fmt.Sprintf("c05-genesis-recipient2-%d-%v", c.Index, twice)).Bech(), VestingPoolName: "up", Amount: sdk.NewInt(amtA - s + 1), RestartVesting: false})
+					if derr2 == nil && res2.Code == 0 {
+						c.Violate("C08/oversend-succeeded", "after sending %d of %d, a send of %d from the pool of a genesis owner spelled in upper case succeeded", s, amtA, amtA-s+1)
+						sentA = amtA + 1
+					}
+					c.Count("upper_case_genesis_owner_sends", 1)
+				}
+			}
+			backed("after the send")
+			n.EndBlock()
+		}
+		if sentA > amtA {
+			continue
+		}
+		amtA := amtA - sentA
+		// at the lock end the owner is paid exactly the matured remainder, and the pool query
+		// agrees
 		if _, err := n.BeginBlock(lockEnd); err != nil {
 			continue
 		}
@@ -222,6 +265,55 @@ func c05GenesisProbe(c *fw.Case) {
 		}
 		backed("after the withdrawal")
 		n.EndBlock()
+	}
+	// --- an owner with more pools than any page of a listing holds ---
+	if c.Index%32 == 15 {
+		nPools := 101 + r.Intn(60)
+		var many []*vesttypes.VestingPool
+		total := int64(0)
+		ends := []time.Time{}
+		for i := 0; i < nPools; i++ {
+			amt := int64(1 + r.Intn(100000))
+			p := mkPool(fmt.Sprintf("pool-%03d", i), amt)
+			many = append(many, p)
+			total += amt
+			ends = append(ends, p.LockEnd)
+		}
+		vg := &vesttypes.GenesisState{Params: vesttypes.Params{Denom: vDenom}, VestingTypes: vts,
+			AccountVestingPools: []*vesttypes.AccountVestingPools{{Owner: owner.Bech(), VestingPools: many}}}
+		if n, err := chain.NewNode(chain.GenesisSpec{Time: gen.Epoch, Accounts: accs, Vesting: vg}); err == nil {
+			at := ends[r.Intn(len(ends))] // exactly at one of the lock ends
+			if _, err := n.BeginBlock(at); err == nil {
+				want := int64(0)
+				for _, p := range many {
+					if !at.Before(p.LockEnd) {
+						want += p.InitiallyLocked.Int64()
+					}
+				}
+				q, qerr := n.App.CfevestingKeeper.VestingPools(sdk.WrapSDKContext(n.Ctx()), &vesttypes.QueryVestingPoolsRequest{Owner: owner.Bech()})
+				reported := sdk.ZeroInt()
+				if qerr == nil && q != nil {
+					for _, info := range q.VestingPools {
+						if w, ok := sdk.NewIntFromString(info.Withdrawable); ok {
+							reported = reported.Add(w)
+						}
+					}
+				}
+				before := n.App.BankKeeper.GetBalance(n.Ctx(), owner.Addr, vDenom).Amount
+				res, derr := n.Deliver(owner, &vesttypes.MsgWithdrawAllAvailable{Owner: owner.Bech()})
+				if derr == nil {
+					paid := n.App.BankKeeper.GetBalance(n.Ctx(), owner.Addr, vDenom).Amount.Sub(before)
+					if res.Code != 0 || !paid.Equal(sdk.NewInt(want)) {
+						c.Violate("C06/withdraw-paid-wrong-amount", "owner with %d pools: withdraw-all paid %s (code %d), the matured remainders add up to %d", nPools, paid, res.Code, want)
+					}
+					if qerr != nil || !reported.Equal(paid) {
+						c.Violate("C06/query-vs-withdrawal", "owner with %d pools: the pool query reported %s withdrawable in %d pools (err %v), the withdrawal in the same block paid %s", nPools, reported, len(q.GetVestingPools()), qerr, paid)
+					}
+					c.Count("owners_with_more_than_100_pools", 1)
+				}
+				n.EndBlock()
+			}
+		}
 	}
 	c.Describe("genesis-probe", c.Index, d)
 	c.Nontrivial(true)
